@@ -71,6 +71,7 @@ type session struct {
 	since     int
 	W         []frame
 	honest    bool
+	atWindowStart bool
 	applyFail bool
 	applied   []ent
 	queuedAt  int // len(world.popped) at connect
@@ -403,11 +404,12 @@ func (w *world) noteSenderFrame(s *session, f frame) (uint64, string) {
 		for _, e := range s.sent {
 			h.Write(e.payload)
 		}
-		if !bytes.Equal(h.Sum(nil), hb) {
-			return 0, "sender-ckpt-hash-wrong"
-		}
 		mb, _ := hex.DecodeString(cp.HMAC)
 		w.ckpts = append(w.ckpts, ckrec{cp.LastSequence, hb, cp.Nonce, cp.SenderNodeID, cp.Timestamp, mb, s.id})
+		if !bytes.Equal(h.Sum(nil), hb) { // not the hash of everything streamed since the handshake
+			w.c.Tag("dist:checkpoint-hash-not-session-scoped")
+			return cp.LastSequence, "hash-not-session-scoped"
+		}
 		return cp.LastSequence, ""
 	}
 	return 0, "sender-frame-type"
@@ -420,7 +422,7 @@ func (w *world) connect() {
 	a1, a2 := net.Pipe()
 	b1, b2 := net.Pipe()
 	s := &session{id: w.nsess, gate: newGate(a1), a2: a2, b1: b1, frames: make(chan frame, 1<<14),
-		done: make(chan struct{}), alive: true, active: true, tags: map[string]uint64{}, honest: true,
+		done: make(chan struct{}), alive: true, active: true, tags: map[string]uint64{}, honest: true, atWindowStart: true,
 		queuedAt: len(w.popped)}
 	nonce := fmt.Sprintf("n%d-%d-%d", w.c.Seed, w.caseNo, w.nsess)
 	key, err := security.DeriveReplicationSessionKey(secret, nonce)
